@@ -71,6 +71,7 @@ DEFAULT_CFG = {
     "c_supported": None,
     "s_supported": None,
     "c_drop_first": 0,        # scripted fault: the first N client datagrams are lost
+    "blackout_from": None,    # scripted fault: every datagram sent at/after this time (s after start) is lost
     "tickets": None,          # {"client": [], "server": {}} session-ticket store shared between worlds
     "c_max_streams": None,    # (bidi, uni) stream-count limits advertised by the client
     "s_max_streams": None,
@@ -348,7 +349,22 @@ class NetSim:
         else:
             c.conn = QuicConnection(configuration=self.c_cfg)
         self._apply_stream_limits(c.conn, self.cfg["c_max_streams"])
-        self.api(c, "connect", lambda: c.conn.connect(S_ADDR, now=self.now))
+        def first():
+            # connect() and the application's "pre" operations (0-RTT writes issued before the
+            # first transmit) happen before the first datagrams_to_send(), as a real caller
+            # that connects and writes in the same event-loop turn would do
+            c.conn.connect(S_ADDR, now=self.now)
+            while c.op_i < len(c.ops) and c.ops[c.op_i].get("g") == "pre":
+                op = c.ops[c.op_i]
+                c.op_i += 1
+                if op["op"] != "w":
+                    raise core.HarnessError("only writes may be 'pre' operations")
+                off = op.setdefault("_off", self._written(c, op["sid"]))
+                c.conn.send_stream_data(op["sid"], pattern(op["sid"], off, op["n"]),
+                                        end_stream=op.get("fin", False))
+                self.log("app_pre", (c.name, op))
+
+        self.api(c, "connect", first)
 
     @staticmethod
     def _apply_stream_limits(conn, lim):
@@ -395,6 +411,10 @@ class NetSim:
             d.recs = self.obs.observe(ep.name, data, addr, self.now)
             ep.sent_packets.extend(d.recs)
             recs_all.append((d, addr))
+            if self.cfg["blackout_from"] is not None and self.now - self.t0 >= self.cfg["blackout_from"]:
+                d.kind = "scripted_loss"
+                self.log("send_lost", (ep.name, d.id, len(data)))
+                continue
             if ep.name == "c" and d.id < self.cfg["c_drop_first"]:
                 d.kind = "scripted_loss"
                 self.log("send_lost", (ep.name, d.id, len(data)))
@@ -666,6 +686,8 @@ class NetSim:
                         menu.append(("drop", first))
                     if "dup" in self.dev and first.kind == "genuine":
                         menu.append(("dup", first))
+                    if "duplate" in self.dev and first.kind == "genuine":
+                        menu.append(("dup", first, 1.0))
                     if "delay" in self.dev:
                         menu.append(("delay", first, 0.030))
                         menu.append(("delay", first, 1.5))
@@ -707,7 +729,7 @@ class NetSim:
                 c2.id, self.next_id = self.next_id, self.next_id + 1
                 c2.src, c2.dst, c2.data, c2.src_addr, c2.kind = d.src, d.dst, d.data, d.src_addr, "dup"
                 c2.sent, c2.recs = d.sent, d.recs
-                c2.arrival = d.arrival + 0.004
+                c2.arrival = d.arrival + (ev[2] if len(ev) > 2 else 0.004)
                 self.inflight.append(c2)
                 self.deliver(d)
             elif k == "delay":
